@@ -12,7 +12,7 @@ use serde_json::{json, Value};
 use std::collections::HashSet;
 use std::hash::{Hash, Hasher};
 
-pub const RULE: &str = "cases = hostile strings pushed through Range::parse and Version::parse and, on whatever comes back, every accessor / diagnostic of an error and every operation on values (Display, Debug, Clone, Hash, serde, satisfies, min_version, max/min_satisfying, diff, intersect, difference, allows_all, allows_any; against themselves, each other in both orders, and results fed back to depth 3); strata: XR every string over a 16-character range alphabet up to length 5 (quick) / 6 (thorough), XV every string over the version alphabet up to length 6 / 8, P pair and triple operations over the structurally distinct ranges collected from XR, U random UTF-8 (multi-byte at every position, combining marks, NUL), L long inputs 1 KiB..1 MiB of 17 families, N near-limit numbers and lengths, T tuple conversions with extreme values (assertions-off shard); built with overflow checks and debug assertions on (and once with them off); events = Panic (first nodejs_semver:: frame), Abort (signal), Timeout (CPU limit), Superlinear (cachegrind instruction counts at n, 2n, 4n), UB report (Miri / memcheck slice); non-trivial = the string parses with at least one parser, or its error is not at offset 0; distinct = distinct strings / operand pairs";
+pub const RULE: &str = "cases = hostile strings pushed through Range::parse and Version::parse and, on whatever comes back, every accessor / diagnostic of an error and every operation on values (Display, Debug, Clone, Hash, serde, satisfies, min_version, max/min_satisfying, diff, intersect, difference, allows_all, allows_any; against themselves, each other in both orders, and results fed back to depth 3); strata: XR every string over a 16-character range alphabet up to length 5 (quick) / 7 (thorough), XV every string over the version alphabet up to length 6 / 9, P pair and triple operations over the structurally distinct ranges collected from XR, U random UTF-8 (multi-byte at every position, combining marks, NUL), L long inputs 1 KiB..1 MiB of 17 families, N near-limit numbers and lengths, T tuple conversions with extreme values (assertions-off shard); built with overflow checks and debug assertions on (and once with them off); events = Panic (first nodejs_semver:: frame), Abort (signal), Timeout (CPU limit), Superlinear (cachegrind instruction counts at n, 2n, 4n), UB report (Miri / memcheck slice); non-trivial = the string parses with at least one parser, or its error is not at offset 0; distinct = distinct strings / operand pairs";
 
 pub const SIGMA_R: &[char] = &['0', '1', '.', 'x', '*', '-', ' ', '|', '>', '<', '=', '~', '^', 'a', 'v', '+'];
 
@@ -317,7 +317,7 @@ pub fn run(ctx: &mut Ctx) {
     // ---- XR: exhaustive range alphabet
     ctx.stratum("XR-exhaustive-range-alphabet", true);
     let k = SIGMA_R.len();
-    let max_len = ctx.tier.pick(5usize, 6usize);
+    let max_len = ctx.tier.pick(5usize, 7usize);
     // shard by 2-char prefix block; short strings in block 0
     if ctx.take() {
         for s in ["", " ", "|", "||"] {
@@ -351,7 +351,7 @@ pub fn run(ctx: &mut Ctx) {
     ctx.note("structurally distinct ranges collected from XR (per shard, capped)", pool.ranges.len() as u64);
     // ---- XV: exhaustive version alphabet
     ctx.stratum("XV-exhaustive-version-alphabet", true);
-    let vmax = ctx.tier.pick(6usize, 8usize);
+    let vmax = ctx.tier.pick(6usize, 9usize);
     {
         let mut p2 = Pool::new(0);
         exhaustive(ctx, vmax, &mut |ctx, s| exercise_string(ctx, s, &mut p2));
